@@ -295,6 +295,15 @@ pub fn iface_name(rng: &mut Rng) -> String {
 }
 fn comment(rng: &mut Rng, safe: bool) -> String {
     let pool: &[&str] = if safe { &["hello", "a b", "x y  z", "Returns the thing", "tr  ", "é ü", "TODO", "#nested", "1.5", "", ""] } else { &["see (x)", "a: b", "x) y", "(", ":)", "k: v, (w)"] };
+    // one comment in twenty-five is full of parentheses (70 opening ones in a row, a numbered list `(1 .. (2 ..`, closing
+    // ones): comment text is not structure, whatever it contains
+    if rng.chance(1, 25) {
+        return match rng.below(3) {
+            0 => "(".repeat(rng.range(66, 90)),
+            1 => (1..rng.range(20, 40)).map(|i| format!("({i} item")).collect::<Vec<_>>().join(" "),
+            _ => format!("{} x {}", ")".repeat(rng.range(3, 70)), "(".repeat(rng.range(3, 70))),
+        };
+    }
     rng.pick(pool).to_string()
 }
 fn comments(rng: &mut Rng, p: usize, safe: bool) -> Vec<String> {
@@ -343,6 +352,14 @@ pub fn gen_ty(rng: &mut Rng, depth: usize, inline_unsafe: &mut bool, with_commen
 /// A type nested `d` constructors deep (a chain of `?`, `[]`, `[string]` and one-field inline structs around a
 /// leaf): the grammar puts no bound on nesting, so neither may the parser (C13 / C14 quantify over every depth).
 pub fn deep_ty(rng: &mut Rng, d: usize) -> Ty {
+    // one deep type in three is a tower of one-field inline structs only, 65..90 levels (that many parentheses open at once)
+    if rng.chance(1, 3) {
+        let mut t = if rng.chance(1, 2) { Ty::Int } else { Ty::Enum(vec![(field_name(rng), vec![])]) };
+        for _ in 0..rng.range(65, 90) {
+            t = Ty::Struct(vec![Field { name: field_name(rng), ty: t, cs: vec![] }]);
+        }
+        return t;
+    }
     let mut t = match rng.below(4) { 0 => Ty::Int, 1 => Ty::Str, 2 => Ty::Custom(type_name(rng)), _ => Ty::Enum(vec![(field_name(rng), vec![])]) };
     for _ in 0..d {
         t = match rng.below(4) {
